@@ -2169,11 +2169,22 @@ func (ts *TokenStore) revokeInternal(ctx context.Context, saltedID string, skipO
 			lock := locksutil.LockForKey(ts.tokenLocks, entry.ID)
 			lock.Lock()
 
-			entry.Parent = ""
-			err = ts.store(childCtx, entry)
+			// The lock can only be derived from the entry itself, so the entry
+			// above was read without it. Read it again now that the lock is
+			// held; otherwise a stale copy is written back, undoing e.g. a
+			// use-count decrement made in the meantime.
+			entry, err = ts.lookupInternal(childCtx, child, true, true)
 			if err != nil {
 				lock.Unlock()
-				return fmt.Errorf("failed to update child token: %w", err)
+				return fmt.Errorf("failed to get child token: %w", err)
+			}
+			if entry != nil {
+				entry.Parent = ""
+				err = ts.store(childCtx, entry)
+				if err != nil {
+					lock.Unlock()
+					return fmt.Errorf("failed to update child token: %w", err)
+				}
 			}
 			lock.Unlock()
 
@@ -2484,8 +2495,13 @@ func (ts *TokenStore) handleTidy(ctx context.Context, req *logical.Request, data
 						lock := locksutil.LockForKey(ts.tokenLocks, te.ID)
 						lock.Lock()
 
-						te.Parent = ""
-						err = ts.store(quitCtx, te)
+						// Re-read the entry under its lock so that a stale copy
+						// is not written back over a concurrent update.
+						te, err = ts.lookupInternal(quitCtx, child, true, true)
+						if err == nil && te != nil {
+							te.Parent = ""
+							err = ts.store(quitCtx, te)
+						}
 						if err != nil {
 							tidyErrors = multierror.Append(tidyErrors, fmt.Errorf("failed to convert child token into an orphan token: %w", err))
 						}
